@@ -18,7 +18,7 @@ RULE = (
     "alias replaced by the canonical path and the links removed - per-line attribution keyed by (real file, line) and "
     "get_setmap must be identical, links add nothing to any total, links whose target is outside the root are not "
     "members, cbi-tree shows links as `name -> target` without adding them to directory sums, cbi-cov entries reached "
-    "through a link carry the target's lines. Non-trivial: some file is reached through >=2 different spellings in one "
+    "through a link carry the target's lines; the decorated code base is analysed once more through a symbolic link to its root directory. Non-trivial: some file is reached through >=2 different spellings in one "
     "run, one of them through a directory link; distinct by tree+decoration."
 )
 ASSUMPTIONS = [
@@ -211,6 +211,32 @@ def check_case(case, res: Result, cli=False):
             vs.append(make_violation("members-differ-from-canonical-twin", cj, memT, realD))
         if "lout.h" in memD:
             vs.append(make_violation("link-to-outside-is-member", cj, "lout.h is not part of the code base", memD))
+        # (5) the whole code base reached through a link to its root directory (a work-area link)
+        rootL = os.path.join(top, "work")
+        os.symlink(os.path.join("d", "cb"), rootL)
+        try:
+            mL = cbcase.materialise(deco, rootL)
+            stL, cbL, _ = cbcase.analyse(rootL, mL["dbs"])
+            aL = {}
+            for fn in stL.get_filenames():
+                aL[os.path.relpath(os.path.realpath(fn), rootD)] = observe.attribution_of(stL, fn)[0]
+            smL = {k: v for k, v in stL.get_setmap(cbL).items() if v}
+            memL = sorted({os.path.relpath(os.path.realpath(f), rootD) for f in cbL})
+        except Exception as e:
+            vs.append(make_violation(f"linked-root:exception:{type(e).__name__}", cj, "analysis succeeds", f"{type(e).__name__}: {e}"))
+            return vs
+        if memL != memT:
+            vs.append(make_violation("linked-root:members-differ-from-canonical-twin", cj, memT, memL))
+        elif smL != smT:
+            vs.append(make_violation("linked-root:setmap-differs-from-canonical-twin", cj, sorted((sorted(k), v) for k, v in smT.items()), sorted((sorted(k), v) for k, v in smL.items())))
+        else:
+            for f in sorted(set(aT) | set(aL)):
+                if f.startswith(".."):
+                    continue
+                x, y = aT.get(f, ({}, []))[0], aL.get(f, {})
+                if x != y:
+                    vs.append(make_violation("linked-root:attribution-differs-from-canonical-twin", cj, {"file": f}, "differs"))
+                    break
         # (4) tree view: link rows show their target and add nothing to directory sums
         if cli:
             rc, out, err = observe.run_cli("codebasin.tree", [mD["analysis"]], cwd=rootD)
